@@ -85,6 +85,76 @@ def dispatch_ok(value: T, pc, evs: T) -> bool:
     return False
 
 
+def _qual_value(c: T, fq: T, q: int):
+    """Truth value of a condition that only looks at the qualifier, for func_qualifier == q; None if it looks elsewhere."""
+    def val(t):
+        if t == fq:
+            return q
+        if t.op == "const" and isinstance(t.a[0], (int, bool)):
+            return t.a[0]
+        if t.op == "bin" and t.a[0] in ("&", "|", "^", ">>", "<<", "+", "-"):
+            l, r = val(t.a[1]), val(t.a[2])
+            if l is None or r is None:
+                return None
+            try:
+                return {"&": lambda: l & r, "|": lambda: l | r, "^": lambda: l ^ r, ">>": lambda: l >> r, "<<": lambda: l << r,
+                        "+": lambda: l + r, "-": lambda: l - r}[t.a[0]]()
+            except (TypeError, ValueError):
+                return None
+        if t.op in ("tuple", "list", "set"):
+            vs = [val(x) for x in t.a[0]]
+            return None if any(v is None for v in vs) else tuple(vs)
+        return None
+    if c.op == "not":
+        v = _qual_value(c.a[0], fq, q)
+        return None if v is None else not v
+    if c.op == "bool":
+        vs = [_qual_value(x, fq, q) for x in c.a[1]]
+        if c.a[0] == "and":
+            return False if any(v is False for v in vs) else (None if any(v is None for v in vs) else True)
+        return True if any(v is True for v in vs) else (None if any(v is None for v in vs) else False)
+    if c.op == "cmp":
+        l, r = val(c.a[1]), val(c.a[2])
+        if l is None or r is None:
+            return None
+        try:
+            return bool({"==": lambda: l == r, "!=": lambda: l != r, "in": lambda: l in r, "not in": lambda: l not in r,
+                         "<": lambda: l < r, "<=": lambda: l <= r, ">": lambda: l > r, ">=": lambda: l >= r,
+                         "is": lambda: l == r, "is not": lambda: l != r}[c.a[0]]())
+        except (TypeError, KeyError):
+            return None
+    v = val(c)
+    return None if v is None else bool(v)
+
+
+def _dispatch_by_value(interp, tp, feed_fn):
+    """q -> the action methods feed(event) calls, in order, when event.func_qualifier == q (conditions on anything else
+    are left open)."""
+    rec = interp.run(tp.module, feed_fn, self_cls=tp)
+    if rec.notes:
+        raise AnalysisError(f"feed: unsupported construct {rec.notes[0]}")
+    ev = param(feed_fn.args.args[1].arg)
+    fq = T("attr", (ev, "func_qualifier"))
+    calls = [c for c in rec.calls if c.func.op == "attr" and c.func.a[0] == SELF and c.func.a[1] in tp.methods
+             and c.where.endswith(".feed") and len(c.args) == 2 and c.args[0] == ev]
+    if not calls:
+        raise AnalysisError("anchor vanished: feed neither uses a qualifiers_actions table nor calls action methods with (event, table)")
+    out = {}
+    for q in range(4):
+        seq = []
+        for c in sorted(calls, key=lambda c_: c_.seq):
+            if all((_qual_value(cond, fq, q) in (None, pol)) for cond, pol in c.pc):
+                if c.func.a[1] not in seq or True:
+                    seq.append(c.func.a[1])
+        # the same call site reached under both values of an unrelated condition is one action
+        dedup = []
+        for m in seq:
+            if not dedup or dedup[-1] != m:
+                dedup.append(m)
+        out[q] = tuple(dedup)
+    return out
+
+
 def check(repo: Repo, run: Run) -> None:
     interp = sym.Interp(repo)
     tp = repo.cls("traces_parser", "TracesParser")
@@ -103,13 +173,28 @@ def check(repo: Repo, run: Run) -> None:
                 qa = e.value
             if e.value.op == "dict" and not e.value.a[0]:
                 created[e.key] = e
-    if qa is None or qa.op != "dict":
-        raise AnalysisError("anchor vanished: TracesParser.qualifiers_actions dict literal")
     actions = {}
-    for k, v in qa.a[0]:
-        if k.op != "const" or not (v.op == "attr" and v.a[0] == SELF):
-            raise AnalysisError("qualifiers_actions entries are not constant -> self.method")
-        actions[k.a[0]] = v.a[1]
+    direct_dispatch = None
+    if qa is not None and qa.op == "dict":
+        for k, v in qa.a[0]:
+            if k.op != "const" or not (v.op == "attr" and v.a[0] == SELF):
+                raise AnalysisError("qualifiers_actions entries are not constant -> self.method")
+            actions[k.a[0]] = v.a[1]
+    else:
+        # no dispatch table: feed tests the qualifier itself.  The qualifier has four values (C01), so what feed runs for
+        # each of them is computed by evaluating its conditions on event.func_qualifier for q = 0, 1, 2, 3.
+        direct_dispatch = _dispatch_by_value(interp, tp, M["feed"])
+        multi = {q: seq for q, seq in direct_dispatch.items() if len(seq) != 1}
+        run.ob("K7", MOD, "TracesParser.feed", "each qualifier value runs exactly one action", not multi,
+               "" if not multi else
+               "; ".join(f"qualifier {q} ({['NONE', 'START', 'END', 'ALL'][q]}) runs {list(seq) or 'nothing'}" for q, seq in sorted(multi.items()))
+               + ": an ALL record must produce exactly one trace consisting of that record alone, a NONE record likewise; "
+                 "running the START action and then the END action appends the record twice and closes windows it never opened",
+               facts={"dispatch": {str(q): list(seq) for q, seq in direct_dispatch.items()}}, line=M["feed"].lineno,
+               witness="START read, ALL getpid, END read on one thread: the ALL record appears twice in the read window")
+        if multi:
+            return
+        actions = {q: seq[0] for q, seq in direct_dispatch.items()}
     run.ob("K7", MOD, "TracesParser.__init__", "qualifiers_actions total over {0,1,2,3}", set(actions) == {0, 1, 2, 3},
            f"qualifiers_actions has keys {sorted(actions)}; func_qualifier ranges over 0..3 (C01)", facts={"actions": actions})
     if set(actions) != {0, 1, 2, 3}:
@@ -331,6 +416,32 @@ def check(repo: Repo, run: Run) -> None:
                 alt_name = T("call", (T("attr", (tc, "get")), (eid,) + dflt, ()))
                 conds.append(T("cmp", ("in", alt_name, trace_reg)))
             ok = any(normal.bool_equiv(chosen, c) is True for c in conds)
+    if not ok and direct_dispatch is not None:
+        # no table: the alternatives are direct calls of the action methods; for every qualifier value the action of that
+        # value must be called with on_going_traces exactly when the code belongs to the trace family
+        conds = [cond]
+        for dflt in ((), (const(None),), (const(""),)):
+            alt_name = T("call", (T("attr", (tc, "get")), (eid,) + dflt, ()))
+            conds.append(T("cmp", ("in", alt_name, trace_reg)))
+        TR_T, EV_T = T("attr", (SELF, "on_going_traces")), T("attr", (SELF, "on_going_events"))
+        acalls = [c for c in rec.calls if c.func.op == "attr" and c.func.a[0] == SELF and c.func.a[1] in M
+                  and c.where.endswith(".feed") and len(c.args) == 2 and c.args[0] == ev]
+        ok = bool(acalls)
+        for q in range(4):
+            chosen = []
+            for c in acalls:
+                if not all(_qual_value(c_, fq, q) in (None, p_) for c_, p_ in c.pc):
+                    continue
+                if c.func.a[1] != actions[q]:
+                    ok = False
+                    continue
+                rest = tuple((c_, p_) for c_, p_ in c.pc if _qual_value(c_, fq, q) is None)
+                for tpc, tbl in normal.guarded_leaves(c.args[1]):
+                    if tbl == TR_T:
+                        chosen.append(normal.pc_term(rest + tpc))
+                    elif tbl != EV_T:
+                        ok = False
+            ok = ok and any(normal.bool_equiv(normal.any_of(chosen), c_) is True for c_ in conds)
     run.ob("K6", MOD, "TracesParser.feed", "domain selection", ok,
            "" if ok else "feed does not dispatch qualifiers_actions[event.func_qualifier](event, on_going_traces) exactly when the "
                          "code's name is a key of the trace-family registry and (event, on_going_events) otherwise",
